@@ -142,12 +142,15 @@ class MutableKernelSizes:
         :rtype: int
         """
         if kernel_size is not None:
-            if self.tuple_sizes:
-                assert isinstance(kernel_size, tuple), "Kernel size must be a tuple."
-            else:
-                assert isinstance(kernel_size, int), "Kernel size must be an integer."
+            # NOTE: the value this method returns (and that is replayed on the other networks of an
+            # algorithm) is the edge length of the square kernel, also when sizes are stored as tuples
+            if isinstance(kernel_size, tuple):
+                kernel_size = kernel_size[-1]
+            assert isinstance(
+                kernel_size, (int, np.integer)
+            ), "Kernel size must be an integer (edge length) or a tuple."
 
-            new_kernel_size = kernel_size
+            new_kernel_size = int(kernel_size)
         else:
             max_kernels = self.calc_max_kernel_sizes(
                 channel_size, stride_size, input_shape
